@@ -94,9 +94,16 @@ pub fn run_index(prop: &str, seed: u64, thorough: bool, ctx: &Ctx, sink: &mut dy
             sink(&c, res);
         }
         "C12" => {
-            let c = Case::W1(gen_w1(seed, Mix::AllocatorApi, faults));
-            let res = run_case(&c, ctx);
-            sink(&c, res);
+            if r.chance(1, 4) {
+                // standard collections parameterised by the arena, mirrored on std
+                let c = Case::W2(crate::w2_gen::gen_w2(seed, crate::w2_gen::Focus::AVec));
+                let res = run_case(&c, ctx);
+                sink(&c, res);
+            } else {
+                let c = Case::W1(gen_w1(seed, Mix::AllocatorApi, faults));
+                let res = run_case(&c, ctx);
+                sink(&c, res);
+            }
         }
         "C13" | "C14" | "C15" | "C17" => {
             use crate::w2_gen::{gen_w2, Focus};
@@ -249,7 +256,7 @@ pub fn nontrivial(prop: &str, st: &Stats) -> bool {
         "C09" => g("fallible_call_failed") >= 1,
         "C10" => g("iter_chunks") >= 1 && g("chunk_granted") >= 1,
         "C11" => g("initialiser_failed") + g("slice_initialiser_failed") >= 1,
-        "C12" => g("grow_in_place") + g("grow_relocated_same_chunk") + g("grow_into_new_chunk") + g("shrink_kept_address") + g("shrink_in_place_moved_up") + g("deallocate_reclaimed") >= 1,
+        "C12" => g("w2_mirrored_call") >= 2 || g("grow_in_place") + g("grow_relocated_same_chunk") + g("grow_into_new_chunk") + g("shrink_kept_address") + g("shrink_in_place_moved_up") + g("deallocate_reclaimed") >= 1,
         "C13" | "C14" | "C15" | "C17" => g("w2_mirrored_call") >= 2,
         "C16" => g("w3_injected_panic_fired") >= 1,
         "C20" => g("w4_interleaved_run") >= 1,
